@@ -1,7 +1,8 @@
 (* C02 — Listing addresses, symbol values and the emitted image agree. *)
 From V Require Import Base.
 From V.model Require Import MText MValues MOperands MProgram.
-From V.proofs Require Import PLayout PFrames PC02 PSize.
+From V.proofs Require Import PLayout PFrames PC02 PSize PC02sym.
+From V.gen Require Tables.
 From Coq Require String.
 Import String.StringSyntax.
 Local Open Scope N_scope.
@@ -71,6 +72,30 @@ Theorem C02_image_loads_at_origin :
       r_addr s = origin_value r + N.of_nat (length (concat (map r_bytes (firstn k (r_stmts r))))).
 Proof. intros fm lines r H. exact (image_loads_at_origin fm lines r H (statement_size_is_bytes fm lines r H)). Qed.
 Print Assumptions C02_image_loads_at_origin.
+
+(* (f) THE SYMBOL TABLE.  For EVERY accepted program: every label is in the symbol table, and its value there is the
+   listing address of the statement it labels (the own address of the k-th final statement: what r_addr shows) - the
+   symbol pass records the statement's INDEX, no later pass reorders, drops or relabels a statement, and the back-patch
+   after layout replaces the index by that statement's address ... *)
+Theorem C02_label_names_its_statement :
+  forall fm parsed ss tb k s,
+    translate_program fm parsed = Ok (ss, tb) -> nth_error ss k = Some s -> s_label s <> [] ->
+    Tables.is_pseudo_define (s_instr s) = false ->
+    lookup (s_label s) tb = Some (cp_addr (s_pkg s)).
+Proof. intros fm parsed ss tb k s Ht. exact (label_names_its_statement fm parsed ss tb Ht k s). Qed.
+Print Assumptions C02_label_names_its_statement.
+
+(* ... and an EQU symbol defined by a number has exactly that number as its value *)
+Theorem C02_equ_constant_names_its_number :
+  forall fm lines parsed ss tb k s str n,
+    parse_lines lines = Ok parsed -> translate_program fm parsed = Ok (ss, tb) ->
+    nth_error ss k = Some s -> s_label s <> [] -> Tables.is_pseudo_define (s_instr s) = true ->
+    s_operand s = OPseudo str (VNum n) ->
+    lookup (s_label s) tb = Some (VNum n).
+Proof.
+  intros fm lines parsed ss tb k s str n Hp Ht. exact (equ_constant_names_its_number fm parsed ss tb Ht (parse_lines_shape _ _ Hp) k s str n).
+Qed.
+Print Assumptions C02_equ_constant_names_its_number.
 
 (* a program with code before its ORG is rejected *)
 Example C02_noncontiguous_rejected :
